@@ -181,7 +181,6 @@ def correspond(ctx):
     if meta:
         ctx.sample({'variants': dict(meta[0], tree=sl.show(meta[0]['tree']))})
     deferred = [('(CaseTR %s)' % c, ('tr', m)) for c, m in zip(cases, meta)]
-    ctx.note('t_variants=%.1f' % (__import__('time').time()-ctx.t0))
     # (c) DAG-shaped inputs (python only) ------------------------------------------------------------------------
     from lark import Tree
     for _ in range(ctx.scale(60, 600)):
@@ -213,7 +212,6 @@ def correspond(ctx):
         ctx.violation('variants-dag', w, True, 'Transformer_InPlace differs from Transformer on start[a[sh], sh] with a shared '
                       'sub-object sh: iter_subtrees yields a before sh', key='F31:iter_subtrees-parent-before-shared-child')
 
-    ctx.note('t_dag=%.1f' % (__import__('time').time()-ctx.t0))
     # (b) embedded vs post-hoc ------------------------------------------------------------------------------------
     from lark import Lark
     from lark.exceptions import LarkError
@@ -286,7 +284,6 @@ def correspond(ctx):
                 meta.append(wit)
         if got_one:
             done += 1
-    ctx.note('t_emb_py=%.1f' % (__import__('time').time()-ctx.t0))
     if meta:
         ctx.sample({'embedded': meta[0]})
     deferred += [('(CaseEMB %s)' % c, ('emb', m)) for c, m in zip(cases, meta)]
@@ -309,7 +306,6 @@ def correspond(ctx):
             ctx.violation('correspondence:Shape/Transform.embedded vs Lark(transformer=T)',
                           dict(m, no_longer_checks='Coq embedded model on the LALR derivation == value lark returned'), False,
                           'Coq embedded model differs from the value lark returned (embedded == post-hoc still holds on this case)')
-    ctx.note('t_emb_coq=%.1f' % (__import__('time').time()-ctx.t0))
     # (x) exotic: a Transformer_InPlace subclass as embedded transformer (create_callback passes a Tree) ------------
     g = 'start: a B\na: A\nA: "a"\nB: "b"\n'
     wit = {'grammar': g, 'text': 'ab', 'keep_all_tokens': False, 'maybe_placeholders': True, 'base': 'Transformer_InPlace',
